@@ -271,6 +271,54 @@ pub proof fn lemma_csigs_cv(h: Header, v: Value)
         forall |i: int| 0 <= i < arr_of(v).len() ==> vv(#[trigger] arr_of(v)[i]) == sig_cv(h.counter_signatures@[i]),
     ensures vv(v) == csigs_cv(h),
 { lemma_vv_value_array(v); assert(vv_seq(arr_of(v)) =~= csigs_cv(h)->Array_0); }
+// ---- C12 (encode): an encodable header never puts the same key into its map twice
+pub open spec fn cv_keys_distinct(m: Seq<(CV, CV)>) -> bool { forall |i: int, j: int| 0 <= i < j < m.len() ==> (#[trigger] m[i]).0 != (#[trigger] m[j]).0 }
+pub proof fn lemma_typed_prefix_keys(h: Header, k: int)
+    requires 0 <= k <= 7,
+    ensures
+        forall |i: int| 0 <= i < hdr_typed_prefix(h, k).len() ==> ((#[trigger] hdr_typed_prefix(h, k)[i]).0 matches CV::Int(n) && 1 <= n <= k && typed_present(h, Label::Int(n as i64))),
+        forall |i: int, j: int| 0 <= i < j < hdr_typed_prefix(h, k).len() ==> (#[trigger] hdr_typed_prefix(h, k)[i]).0->Int_0 < (#[trigger] hdr_typed_prefix(h, k)[j]).0->Int_0,
+    decreases k
+{
+    reveal_with_fuel(hdr_typed_prefix, 1);
+    if k > 0 {
+        lemma_typed_prefix_keys(h, k - 1);
+        let p = hdr_typed_prefix(h, k - 1); let e = hdr_typed_entry(h, k); let l = hdr_typed_prefix(h, k);
+        assert(l == p + e);
+        assert forall |i: int| 0 <= i < l.len() implies ((#[trigger] l[i]).0 matches CV::Int(n) && 1 <= n <= k && typed_present(h, Label::Int(n as i64))) by {
+            if i < p.len() { assert(l[i] == p[i]); } else { assert(l[i] == e[i - p.len()]); }
+        }
+        assert forall |i: int, j: int| 0 <= i < j < l.len() implies (#[trigger] l[i]).0->Int_0 < (#[trigger] l[j]).0->Int_0 by {
+            if j < p.len() { assert(l[i] == p[i] && l[j] == p[j]); } else { assert(l[j] == e[j - p.len()]); assert(l[i] == p[i]); }
+        }
+    }
+}
+pub proof fn lemma_hdr_cv_keys_distinct(h: Header)
+    requires rest_labels_ok(h),
+    ensures hdr_cv(h) matches CV::Map(m) && cv_keys_distinct(m),
+{
+    broadcast use axiom_utf8_injective;
+    broadcast use axiom_string_ext;
+    lemma_typed_prefix_keys(h, 7);
+    reveal(rest_entries);
+    let t = hdr_typed_prefix(h, 7); let r = rest_entries(h.rest@); let m = t + r;
+    assert forall |i: int, j: int| 0 <= i < j < m.len() implies (#[trigger] m[i]).0 != (#[trigger] m[j]).0 by {
+        if j < t.len() { assert(m[i] == t[i] && m[j] == t[j]); }
+        else if i >= t.len() {
+            let a = h.rest@[i - t.len()]; let b = h.rest@[j - t.len()];
+            assert(m[i].0 == label_cv(a.0) && m[j].0 == label_cv(b.0));
+            assert(a.0 != b.0);
+            if label_cv(a.0) == label_cv(b.0) { match (a.0, b.0) { (Label::Text(x), Label::Text(y)) => { assert(x@ == y@); } _ => {} } }
+        } else {
+            let b = h.rest@[j - t.len()];
+            assert(m[i] == t[i]); assert(m[j].0 == label_cv(b.0));
+            if m[i].0 == m[j].0 { let n = t[i].0->Int_0; assert(b.0 == Label::Int(n as i64)); assert(typed_present(h, b.0)); }
+        }
+    }    reveal_with_fuel(hdr_typed_entries, 2); reveal_with_fuel(hdr_cv, 2); reveal_with_fuel(hdr_typed_prefix, 1);
+    assert(hdr_typed_entries(h) == t);
+    assert(hdr_cv(h) == CV::Map(m));
+    assert(cv_keys_distinct(m));
+}
 pub open spec fn hdr_encodable(h: Header) -> bool
     decreases h
 {
